@@ -2525,7 +2525,7 @@ get_literal(int token, YYLTYPE loc, const string &str, const YYSTYPE &value) {
 
   if ((token == REAL || token == INTEGER) && raw_instance != nullptr) {
     // For numeric constants, we can fall back to a raw literal operator.
-    result.u.expr = new CPPExpression(CPPExpression::raw_literal(str, instance));
+    result.u.expr = new CPPExpression(CPPExpression::raw_literal(str, raw_instance));
     return CPPToken(CUSTOM_LITERAL, loc, str, result);
   }
 
